@@ -42,6 +42,7 @@ def run(tier):
     paging.check_memory_class(rep, 'C08', pt.Memory, 'skoolkit.pagingtracer.Memory')
     paging.check_pagingtracer_memory_init(rep, 'C08')
     paging.check_memory_class(rep, 'C08', su.Memory, 'skoolkit.skoolutils.Memory')
+    paging.check_memory_bank(rep, 'C08')            # @bank: the data lands in the bank that is mapped, the invariant survives
     paging.check_memory_copy(rep, 'C08')            # a copied 128K memory is paged the way its o7ffd says, whatever the banks hold
     for label, fn, via, cls in paging.write_port_targets():
         for is128 in (True, False):
@@ -62,7 +63,7 @@ def replay(path):
     with open(path) as f:
         doc = json.load(f)
     case = doc.get('case') or {}
-    if isinstance(case, dict) and 'memory_copy' in case:
+    if isinstance(case, dict) and ('memory_copy' in case or 'memory_bank' in case):
         from props import paging
         bad = paging.replay_memory_copy()
         print('replaying', doc.get('key'), [b[1] for b in bad][:3])
